@@ -207,6 +207,36 @@ theorem update_zero_is_noop (c : Cfg) (s : St)
   unfold loop
   simp
 
+/-- **`update(0)` drains the engine** (the zero-length case of `drained_after_update`, fix F50): from any state
+the engine can be left in between calls — some processes behind the clock with a deferred interval, nothing
+pending — a forced completion of length 0 returns with every process at the (unchanged) global time and nothing
+pending. -/
+theorem drained_after_zero_update (c : Cfg) (hb : PosBeh c.beh) (s s' : St)
+    (hinv : Inv s) (hnp : NoPending s) (hrun : runFor c 0 true s = some s') :
+    checkComplete s' = true ∧ s'.gt = s.gt ∧ Inv s' ∧ NoPending s' := by
+  have key := iter_at_end c hb { s with emitTime := s.gt + c.emitStep } hinv hnp
+  simp only at key
+  unfold runFor at hrun
+  simp only [Int.add_zero, Nat.zero_add, Int.natCast_zero] at hrun
+  unfold loop at hrun
+  simp only [Bool.or_true, ite_true] at hrun
+  rw [show (iter c s.gt true { s with emitTime := s.gt + c.emitStep }).gt = s.gt from key.1] at hrun
+  simp only [decide_true, Bool.and_self, ite_true] at hrun
+  unfold loop at hrun
+  simp [key.1] at hrun
+  subst hrun
+  refine ⟨?_, key.1, ?_, ?_⟩
+  · unfold checkComplete
+    rw [List.all_eq_true]
+    intro pf hpf
+    have := key.2 pf hpf
+    simp [this.1, this.2.1, key.1]
+  · intro pf hpf
+    rw [key.1]
+    exact (key.2 pf hpf).2.2
+  · intro pf hpf
+    exact (key.2 pf hpf).2.1
+
 /-- non-vacuity: `update(3); update(0)` equals `update(3)` on the F1 witness below, and after
 `run_for(2); run_for(2)` with timesteps 2 and 5 the call `update(0)` hands the lagging process the 4 time
 units it is behind and nothing to the other one -/
